@@ -166,6 +166,23 @@ def _exit_rule(ctx, facts, fid):
                 else:
                     ctx.violation("EXIT", fid, "break", where,
                                   "this break leaves the race for a reason other than `value >= get_max_value()`: it is taken when %s" % (conds[:1],))
+    # (a') `continue` / early `return`: an item (or one of its points) is skipped
+    for node in [n for n in user_nodes(fn) if n["k"] in ("Continue", "Ret") and not hirq.from_expansion(n)]:
+        if node["k"] == "Ret" and t.parent.get(id(node)) is fn["hir"]:
+            continue
+        loops_ = t.enclosing_loops(node)
+        tgt = None
+        for lp in loops_:
+            if node["k"] == "Continue" and node.get("target") == lp["id"]:
+                tgt = lp
+        conds = nf.all_conditions(t, node, stop=tgt)
+        n_inst += 1
+        inner = _cond_class(fn, conds[0]) if conds else None
+        if inner == "MAX(exit)":
+            ctx.ok("EXIT", fid, "%s when %s" % (node["k"].lower(), conds[0]), hirq.loc(node))
+        else:
+            ctx.violation("EXIT", fid, "item skipped", hirq.loc(node),
+                          "`%s` skips an item (or the rest of its race) when %s, which is not `value >= get_max_value()`: which items enter the signature then depends on something other than the registers" % (node["k"].lower(), conds[:1]))
     # (b) conditions deciding processing / deferral / keeping / drawing
     targets = []
     for n in user_nodes(fn):
